@@ -238,7 +238,8 @@ CLAIMED["C15"] = dict(
          "definitions; derived templates are produced by inverting an edit (rename+replace, extra term+remove, missing "
          "summand+append, missing equation+add, changed defaults, smaller circuit+nodes/edges). parser.replace and "
          "OperatorTemplate.update_template(equations=...) are compared with a regex oracle on generated equation strings.",
-    note="Edge templates with operators are not generated; vectorized rows are compared only when the Python definition "
+    note="The edits arm also runs coverage-guided shards (atheris/libFuzzer driving the same strategy through Hypothesis' "
+         "fuzz_one_input); vectorized rows are compared only when the Python definition "
          "follows the reference recurrence; shapes of the listed C01/C05 findings are excluded and counted.",
     design_ref="DESIGN.md §4 C15")
 
@@ -286,6 +287,9 @@ def main():
             {"name": "hypothesis-stateful", "path": "pv/worker.py",
              "serves_properties": [k for k, v in sorted(CLAIMED.items()) if v.get("engine") == "hypothesis-stateful"],
              "kind_free_text": "RuleBasedStateMachine histories compared with a reference model after every step"},
+            {"name": "atheris", "path": "pv/worker.py", "serves_properties": ["C05", "C15"],
+             "kind_free_text": "optional coverage-guided shards: libFuzzer (atheris 3.1) mutates the byte string that "
+                               "Hypothesis' fuzz_one_input decodes into a case of the arm's strategy; same oracle"},
         ],
         "checks": checks,
         "not_applicable": na,
